@@ -186,17 +186,17 @@ def fs_property(ctx, pid, module, theorems, oracle, classify=None, needs_ref=Fal
 
 def check_C01(ctx):
     import oracles
-    fs_property(ctx, "C01", "C01", ["C01_rebuild_ignores_index", "C01_rebuild_prefix_stable", "C01_rows_rebuilt_are_live_rows", "C01_excluded_corners", "C01_demo"], oracles.c01, classify=classify_update_unindexed)
+    fs_property(ctx, "C01", "C01", ["C01_rebuild_ignores_index", "C01_rebuild_prefix_stable", "C01_rows_rebuilt_are_live_rows", "C01_excluded_corners", "C01_demo", "C01_rows_rebuilt_are_live_rows_any_config", "C01_run_any_config", "C01_rebuild_any_config"], oracles.c01, classify=classify_update_unindexed)
 
 
 def check_C02(ctx):
     import oracles
-    fs_property(ctx, "C02", "C02", ["C02_readonly_refuses", "C02_step", "C02_init_good", "C02_history", "C02_create_existing", "C02_create_existing_empty", "C02_create_pre_existing", "C02_write_file_exact", "C02_write_file", "C02_history_with_writes", "C02_rename", "C02_remove_all"], oracles.c02, classify=classify_C02, needs_ref=True)
+    fs_property(ctx, "C02", "C02", ["C02_readonly_refuses", "C02_step", "C02_init_good", "C02_history", "C02_create_existing", "C02_create_existing_empty", "C02_create_pre_existing", "C02_write_file_exact", "C02_write_file", "C02_history_with_writes", "C02_rename", "C02_remove_all", "C02_step_any_config", "C02_history_any_config", "C02_create_existing_any_config"], oracles.c02, classify=classify_C02, needs_ref=True)
 
 
 def check_C04(ctx):
     import oracles
-    fs_property(ctx, "C04", "C04", ["C04_pos_arith", "C04_pos_unique", "C04_branches_dead", "C04_positions_stable", "C04_positions_wf", "C04_lastknown_not_before_content", "C04_positions_designate_content", "C04_read_is_last_written", "C04_walk_shows_last_written", "C04_read_after_create", "C04_read_after_write_file", "C04_read_is_last_written_with_writes"], oracles.c04, classify=classify_update_unindexed)
+    fs_property(ctx, "C04", "C04", ["C04_pos_arith", "C04_pos_unique", "C04_branches_dead", "C04_positions_stable", "C04_positions_wf", "C04_lastknown_not_before_content", "C04_positions_designate_content", "C04_read_is_last_written", "C04_walk_shows_last_written", "C04_read_after_create", "C04_read_after_write_file", "C04_read_is_last_written_with_writes", "C04_reachable_any_config", "C04_walk_shows_last_written_any_config", "C04_step_any_config", "C04_read_after_create_any_config"], oracles.c04, classify=classify_update_unindexed)
 
 
 def check_C05(ctx):
@@ -211,7 +211,7 @@ def check_C12(ctx):
 
 def check_C13(ctx):
     import oracles
-    fs_property(ctx, "C13", "C13", ["C13_limit", "C13_tree_all_histories", "C13_listing_all_histories", "C13_walk_all_histories"], oracles.c13)
+    fs_property(ctx, "C13", "C13", ["C13_limit", "C13_tree_all_histories", "C13_listing_all_histories", "C13_walk_all_histories", "C13_tree_all_histories_any_config", "C13_listing_all_histories_any_config", "C13_walk_all_histories_any_config"], oracles.c13)
 
 
 def check_C06(ctx):
@@ -249,7 +249,7 @@ def check_C06(ctx):
 def check_C07(ctx):
     import replay, collections
     ctx.trusted += M1_TRUST
-    coq_props(ctx, "C07", ["C07_replay_converges", "C07_replay_idempotent", "C07_rebuild_succeeds", "C07_forged_record_refuted", "C07_demo", "C07_demo_idempotent"])
+    coq_props(ctx, "C07", ["C07_replay_converges", "C07_replay_idempotent", "C07_rebuild_succeeds", "C07_forged_record_refuted", "C07_demo", "C07_demo_idempotent", "C07_replay_converges_any_config", "C07_replay_idempotent_any_config", "C07_rebuild_succeeds_any_config"])
     data = replay.replay_stream(ctx)
     tie = replay.c07_tie(ctx, data)
     ctx.oblige("correspondence: Model/Replay.v evaluates in Coq on the observed replays", tie["ok"], tie["log"])
